@@ -5,7 +5,7 @@
 From Coq Require Import ZArith List Bool.
 Import ListNotations.
 Require Import Nib.C03.Model.
-Open Scope Z_scope.
+Local Open Scope Z_scope.
 
 Record aview := { av_bal : Z; av_nonce : Z; av_code : Z; av_suic : bool }.
 
